@@ -568,9 +568,15 @@ def execute(plan: dict) -> dict:
                 sim.auto = True
                 sim.check_coherence(f"after-{how}:#{i}")
             else:
+                # nothing assignable: the reproduction is used as it is, so the book-keeping of the
+                # original (auto-update setting, seeds, nodes made stale by set_seed / assignments
+                # that have not been recomputed yet) carries over - node names are unchanged
                 model = new
                 sim2 = M.ModelSim(core, model, V, log)
                 sim2.ref.inputs = dict(sim.ref.inputs)
+                sim2.ref.seeds = dict(sim.ref.seeds)
+                sim2.stale = set(sim.stale)
+                sim2.auto = sim.auto
                 sim2.counters = sim.counters
                 sim = sim2
                 sim.auto = model.auto_update
